@@ -290,7 +290,24 @@ func (a *vzAdv) honestVote() bool {
 	for _, v := range who {
 		sigs = append(sigs, gcrypto.SparseSignature{KeyID: vzKeyID(a.keyID(a.h, v)), Sig: a.signVote(kind, a.h, a.r, hash, v)})
 	}
-	cm, k := a.voteMsg(kind, a.h, a.r, string(a.vs(a.h).PubKeyHash), map[string][]gcrypto.SparseSignature{hash: sigs})
+	proofs := map[string][]gcrypto.SparseSignature{hash: sigs}
+	if s.Pct("adv-all-targets", 30) {
+		// as a gossiping peer would: everything known for this kind and round, all targets in one message
+		for other, set := range a.voted[kind] {
+			if other == hash {
+				continue
+			}
+			var vs []int
+			for v := range set {
+				vs = append(vs, v)
+			}
+			sort.Ints(vs)
+			for _, v := range vs {
+				proofs[other] = append(proofs[other], gcrypto.SparseSignature{KeyID: vzKeyID(a.keyID(a.h, v)), Sig: a.signVote(kind, a.h, a.r, other, v)})
+			}
+		}
+	}
+	cm, k := a.voteMsg(kind, a.h, a.r, string(a.vs(a.h).PubKeyHash), proofs)
 	a.remember(a.h, a.r, 1+kind, hash, cm)
 	a.send(cm, k, "valid", fmt.Sprintf("honest %s %d/%d for %x by %v", k, a.h, a.r, trunc(hash), who))
 	a.maybeAdvance()
